@@ -45,8 +45,20 @@ def split_batches(tokens):
     return out
 
 
+def cross_reuse(case):
+    """site of the listed finding C14-REPLAY-AFTER-PATH-REUSE: a path vacated by one operation (rename away / delete) is occupied
+    again by a later one (possibly in a later, already synchronised window - the per-window hazard tags do not see that)"""
+    ops = [t[2] for t in case["tokens"] if t[0] == "U"]
+    for i, op in enumerate(ops):
+        if op[0] in ("rename", "delete", "rmdir"):
+            p = op[1]
+            if any((o[0] in ("create", "mkdir") and o[1] == p) or (o[0] == "rename" and o[2] == p) for o in ops[i + 1:]):
+                return True
+    return False
+
+
 def xsig(case, trace, line):
-    return {"mangle": case["mangle"][0]}
+    return {"mangle": case["mangle"][0], "cross_reuse": cross_reuse(case)}
 
 
 def run(ctx):
